@@ -204,6 +204,13 @@ func (w *world) classify(m *mp.Model, q query, impl string) (string, error) {
 			return "extends-self-loop", nil // a style extending a self-extending style loses that style's descriptors
 		}
 	}
+	if q.value < 0 { // the whole fallback chain continued with |value|
+		q2 := q
+		q2.value = -q.value
+		if s2, p2 := q2.run(w.cs); p2 == "" && s2 == impl {
+			return "sign-lost-on-fallback", nil
+		}
+	}
 	if w.extendsTargetVisited(q.styleName()) {
 		return "extends-target-already-visited", nil
 	}
@@ -215,15 +222,18 @@ func (w *world) classify(m *mp.Model, q query, impl string) (string, error) {
 // chain extends (transitively) a style whose own extends target is already in that set although the
 // extends chain itself has no cycle through it: the code then replaces that target by decimal.
 func (w *world) extendsTargetVisited(name string) bool {
-	visited := map[string]bool{}
+	fallbackSeen, extendsSeen := map[string]bool{}, map[string]bool{}
 	for steps := 0; steps < 2*len(w.cs)+2; steps++ {
 		d, ok := w.cs[name]
-		if !ok || visited[name] {
-			return false
+		if !ok || fallbackSeen[name] {
+			return false // unknown style or a real fallback loop: decimal, as the standard says
+		}
+		if extendsSeen[name] {
+			return true // refused as a fallback only because an earlier style extended it
 		}
 		first := steps == 0 // RenderValue resolves the first style with a set of its own, which is then dropped
 		if !first {
-			visited[name] = true
+			fallbackSeen[name] = true
 		}
 		fb := d.Fallback
 		cur := d
@@ -234,8 +244,8 @@ func (w *world) extendsTargetVisited(name string) bool {
 				break
 			}
 			if !first {
-				visited[t] = true
-				if nxt.System.Extends != "" && visited[nxt.System.System] {
+				extendsSeen[t] = true
+				if t2 := nxt.System.System; nxt.System.Extends != "" && (fallbackSeen[t2] || extendsSeen[t2]) {
 					return true
 				}
 			}
